@@ -75,4 +75,18 @@ theorem C05_first_delivery_spelled_out (acts : List Act) (s : St) (h : run {} ac
   have := firstOK_split pre [] k c post this (by simp) hfirst
   simpa using this
 
+/-! ### fact obligations (Tie B): the mechanisms behind the actions of `E2E.step` -/
+
+/-- `connFail` / `stop`: leftovers are merged in id order (sort + de-duplication) -/
+theorem C05_fact_leftovers_sorted : Facts.client_leftover_sort = ["return chunks[i].ID < chunks[j].ID", "if c.ID == lastChunkID"] ∧
+    Facts.client_leftover_sources = ["fromPrevious...", "fromAckerChannel...", "fromAckerPending...", "*session.lastChunk"] := by decide
+/-- `take` after a reconnect: the recovery stage runs to its end before any new input is received, in separate loops -/
+theorem C05_fact_session_stages : Facts.order_session_stages = ["session.runAcknowledger", "session.resendLeftovers", "session.processInput"] ∧
+    Facts.order_input_sources = ["resendLeftovers:leftovers", "processInput:input"] := by decide
+/-- `restart`: the whole queue directory is read at once and sorted once; recovery precedes the feeder -/
+theorem C05_fact_scan_sorted : Facts.order_scan_sorted = ["Readdirnames(0)", "sort.Strings(fnames)", "range fnames"] ∧
+    Facts.buffer_start_calls = ["buf.recoverExistingChunks()", "go buf.feeder.Run()"] := by decide
+/-- chunk ids increase with creation (the id format and epoch rule of C11) -/
+theorem C05_fact_ids : Facts.pack_id_format = ["%019d-%08d"] ∧ Facts.pack_id_epoch_compare = ["nextTimestamp > generator.epochNano"] := by decide
+
 end C05
